@@ -47,6 +47,15 @@ func genC12(e *emitter, tier string, seed int64) {
 			}
 		}
 	}
+	// subjects whose string form is empty, with patterns that match the empty string (every one, unsampled)
+	for _, sub := range []string{"_", "message", "tg0", "nl", "nv", "ev"} {
+		for _, pat := range []string{`%{GREEDYDATA:a}`, `%{DATA:a}`, `^%{DATA:a}$`, `\\s*`, `(?P<a>x?)`, `%{DATA:a:int}`, `%{WORD:a}`} {
+			src := fmt.Sprintf("nv = nil\nev = \"\"\nr = grok(%s, \"%s\")\np(r)", sub, pat) + obs
+			pt := mkpt("")
+			pt.Tags = append(pt.Tags, [2]string{"tg0", ""})
+			emitSimple(e, src, pt, "grok-empty-subject", fmt.Sprintf("grok(%s, %s)", sub, pat))
+		}
+	}
 	// pattern scopes: definitions in outer/inner/sibling blocks, shadowing, definition after use
 	scopeProgs := []string{
 		"add_pattern(\"P\", \"\\\\d+\")\nif true {\n  grok(_, \"%{P:a}\")\n}",
